@@ -50,6 +50,27 @@ func init() {
 			for k := 1 + r.Intn(10); k > 0; k-- {
 				nav = append(nav, "\x18\x1a"+string(cmds[r.Intn(len(cmds))]))
 			}
+			if r.Intn(4) == 0 {
+				// incremental search with the default keys: C-r / C-s, the search text, the same key again to go to
+				// the next match, ESC to leave the search with the match in the buffer
+				part = "isearch"
+				typed = ""
+				cmds = "i"
+				key := []string{"\x12", "\x13"}[r.Intn(2)]
+				text := []string{"a", "b", "o", "t", "ne", "ab", "wo", "e"}[r.Intn(8)]
+				nav = []string{key}
+				for _, ch := range text {
+					nav = append(nav, string(ch))
+				}
+				for k := r.Intn(3); k > 0; k-- {
+					nav = append(nav, key)
+				}
+				nav = append(nav, "\x1b")
+				c := Case{Specs: []Spec{sp}, Keys: hexChunks(nav), Class: fmt.Sprintf("%s/entries=%d", part, len(ls)),
+					Meta: map[string]string{"part": part, "typed": typed, "kind": cmds, "text": text}}
+				c.Specs[0].Chunks = c.Keys
+				return c
+			}
 			c := Case{Specs: []Spec{sp}, Keys: hexChunks(nav), Class: fmt.Sprintf("%s/entries=%d", part, len(ls)),
 				Meta: map[string]string{"part": part, "typed": typed, "kind": cmds}}
 			var keys []string
@@ -74,6 +95,44 @@ func init() {
 				}
 			}
 			var fs []Finding
+			if c.Meta["part"] == "isearch" {
+				// after the ESC that leaves the search the buffer is empty (the in-progress text) or a stored entry,
+				// character for character, that contains the search text
+				if raw := unhex(nav); len(raw) < 2 || (raw[0] != 0x12 && raw[0] != 0x13) || raw[len(raw)-1] != 0x1b {
+					stat("skipped: not an incremental search any more (shrunk)")
+					return nil
+				}
+				if len(tr.Waits) < len(nav)+1 {
+					stat("skipped: isearch script not run to its end")
+					return nil
+				}
+				last := tr.Waits[len(nav)]
+				if last.Local != "" {
+					stat("skipped: still searching")
+					return nil
+				}
+				stat("decided: isearch")
+				// the search text is what was typed between the search key and the ESC (the script may have been shrunk)
+				text := ""
+				for _, ch := range unhex(nav) {
+					if ch >= 0x20 && ch < 0x7f {
+						text += string(ch)
+					}
+				}
+				ok := last.Line == ""
+				for _, e := range entries {
+					if last.Line == e && strings.Contains(e, text) {
+						ok = true
+					}
+				}
+				if !ok {
+					fs = append(fs, Finding{"C09", "search-shows-non-match/isearch", fmt.Sprintf("history %q, incremental search %q: buffer %q is neither empty nor a stored entry containing the text", entries, unhex(nav), last.Line), c})
+				}
+				if len(tr.Sources) > 0 && !eqLines(tr.Sources[0][0], entries) && !(len(entries) == 0 && len(tr.Sources[0][0]) == 0) {
+					fs = append(fs, Finding{"C09", "history-modified", fmt.Sprintf("history %q became %q", entries, tr.Sources[0][0]), c})
+				}
+				return fs
+			}
 			n := len(entries)
 			i := 0
 			exact := true // false once end-of-history ran: it is documented to go to the last event, and what it does from the middle of the list is not what this property speaks about
